@@ -603,8 +603,16 @@ struct ScaleState {
 static SCALE: Mutex<Option<ScaleState>> = Mutex::new(None);
 
 fn scale_state_new() -> ScaleState {
-    let all = scale_sizes(10, 21);
+    let mut all = scale_sizes(10, 21);
     let hi = (1u128 << 21) + 64;
+    // exact multiples of 2^k + 1 (something that happens every 2^k + 1 items happens 2, 3, 5 times)
+    for k in 10u32..=20 {
+        for mult in [2usize, 3, 5] {
+            let x = mult * ((1usize << k) + 1);
+            if (x as u128) <= hi && !all.contains(&x) { all.push(x); }
+        }
+    }
+    all.sort();
     // sizes derived from a source constant, with the rank of the derivation: just above the
     // constant first, then one period more, the constant itself, ...
     let mut ranked: Vec<(usize, usize)> = vec![];
@@ -622,8 +630,15 @@ fn scale_state_new() -> ScaleState {
     for (_, x) in &ranked {
         if !pref.contains(x) { pref.push(*x); }
     }
-    // then around the powers of two: 2^20 first (the brief: beyond 2^20 + a bit), 2^21, then downwards
-    for k in [20u32, 21, 19, 18, 17, 16, 15, 14, 13, 12, 11, 10] {
+    // then around the powers of two: just beyond 2^20, just beyond 2^21, then the other sizes
+    // around the two, then downwards
+    for off in [1isize, 9, 0, -1, 3, 8] {
+        for k in [20u32, 21] {
+            let x = ((1isize << k) + off) as usize;
+            if all.contains(&x) && !pref.contains(&x) { pref.push(x); }
+        }
+    }
+    for k in [19u32, 18, 17, 16, 15, 14, 13, 12, 11, 10] {
         let p = 1usize << k;
         for x in [p + 1, p + 9, p, p - 1, p + 3, p + 8] {
             if all.contains(&x) && !pref.contains(&x) { pref.push(x); }
@@ -681,13 +696,14 @@ impl Doc {
     }
 }
 
-/// The next size for `(bin, dim)` from `list` that this dimension has not had yet and that is at
-/// most `cap`; when all have been seen, a random one (or a random size in between).
-fn next_size(st: &mut ScaleState, rng: &mut Rng, bin: bool, dim: Dim, big: bool, cap: usize) -> Option<usize> {
-    let list = if big { st.big.clone() } else { st.cheap.clone() };
+/// The next size for `(bin, dim)` from the cheap / big list that this dimension has not had yet
+/// and that is at most `cap`; when all have been seen (and one time in six), a random one from the
+/// list or a random size in between.
+fn next_size(st: &ScaleState, rng: &mut Rng, bin: bool, dim: Dim, big: bool, cap: usize) -> Option<usize> {
+    let list = if big { &st.big } else { &st.cheap };
     let fit: Vec<usize> = list.iter().copied().filter(|x| *x <= cap).collect();
     if fit.is_empty() { return None; }
-    let pick = match fit.iter().find(|x| !st.seen.contains(&(bin, dim, **x))) {
+    Some(match fit.iter().find(|x| !st.seen.contains(&(bin, dim, **x))) {
         Some(x) if !rng.chance(1, 6) => *x,
         _ => {
             if rng.chance(1, 2) { *rng.pick(&fit) } else {
@@ -698,14 +714,232 @@ fn next_size(st: &mut ScaleState, rng: &mut Rng, bin: bool, dim: Dim, big: bool,
                 (lo * (hi / lo).powf(u)) as usize
             }
         }
-    };
-    st.seen.insert((bin, dim, pick));
-    Some(pick)
+    })
 }
 
 const SCALE_NAMES: &[&str] = &["x", "", "a b", "n\u{e4}me", "in 0", "\u{65e5}\u{672c}", "c", "i0 y"];
 const NAME_PATS: &[&str] = &["a", "ab ", " ", "\u{e4}", "\u{20ac}", "\u{1f600}", "x\u{7ff}y"];
 const COMMENT_PATS: &[&str] = &["x", "\n", "line\n", "c\n", "\u{20ac}", "\u{10ffff}\n", "a b\tc "];
+const ALL_DIMS: [Dim; 12] = [Dim::Inputs, Dim::Latches, Dim::Outputs, Dim::Bad, Dim::Constraints, Dim::JusticeCount,
+    Dim::JusticeSize, Dim::Fairness, Dim::Gates, Dim::Symbols, Dim::Name, Dim::Comment];
+
+/// What a scale document looks like, before it is rendered.
+#[derive(Clone)]
+struct Plan {
+    bin: bool,
+    maxcode: u64,
+    size: std::collections::HashMap<Dim, u64>,
+    /// literals at the top of the type's range: long numerals, wide lines, multi-byte deltas
+    wide: bool,
+    primary: Dim,
+    /// a long symbol name comes first in the symbol table: the other symbols, the comment and the
+    /// tail event sit behind it (a stream position beyond 1 MiB that costs few items)
+    late: bool,
+    /// a big slot: short lines (small constant literals) in the bulk sections
+    lean: bool,
+}
+
+struct Built {
+    d: Doc,
+    /// estimated cost of the case in microseconds of model time (the implementation is cheaper)
+    cost: usize,
+    canonical: bool,
+    block: Option<(usize, usize, usize)>, // (start, end, bytes per gate) of the binary and-gate block
+    block_line: usize,
+    sym_start: usize,
+    /// end of the long name's line when it comes first, start of the comment (or end of file)
+    name_end: usize,
+    tail_start: usize,
+    /// a symbol kind that exists, with the number of entries of its section
+    kind: Option<(char, u64)>,
+    nl: u64, na: u64, nj: u64, js: u64,
+}
+
+/// Render a plan.  All random choices come from `rng` (the caller passes a copy of the same state
+/// when it renders a plan again with smaller sizes).
+fn build_scale(plan: &Plan, rng: &mut Rng, all_sizes: &[usize]) -> Built {
+    let (bin, maxcode, size, wide) = (plan.bin, plan.maxcode, &plan.size, plan.wide);
+    let pdim = plan.primary;
+    let mmax = (maxcode - 1) / 2;
+    let js = size[&Dim::JusticeSize];
+    let nj = if js > 0 && size[&Dim::JusticeCount] == 0 { 1 } else { size[&Dim::JusticeCount] };
+    // the other justice properties: 0, 1 or 2 literals each (fewer when there are many)
+    let jc: u64 = if nj > 4096 { rng.below(2) } else { rng.below(3) };
+    let (mut nl, no, nb, nc, nf, mut na) = (size[&Dim::Latches], size[&Dim::Outputs], size[&Dim::Bad], size[&Dim::Constraints], size[&Dim::Fairness], size[&Dim::Gates]);
+    let mut ni = if bin { 0 } else { size[&Dim::Inputs] };
+    // small literal types: the sections that define variables must fit (the type limit is the scale)
+    while ni as u128 + nl as u128 + na as u128 > mmax as u128 {
+        if pdim != Dim::Gates && na > 0 { na /= 2; } else if pdim != Dim::Latches && nl > 0 { nl /= 2; } else if pdim != Dim::Inputs && ni > 0 { ni /= 2; }
+        else if na > mmax { na = mmax; } else if nl > mmax { nl = mmax; } else if ni > mmax { ni = mmax; } else if na > 0 { na -= 1; } else if nl > 0 { nl -= 1; } else { ni -= 1; }
+    }
+    let used = ni + nl + na;
+    let mut v0: u64 = 0; // aag: variables v0+1.. are the defined ones
+    if bin {
+        // the input count is only a number in the header: small, a scale size, or close to the type limit
+        let room_i = mmax - nl - na;
+        ni = match rng.below(4) {
+            0 => rng.below(3).min(room_i),
+            1 => (*rng.pick(all_sizes) as u64).min(room_i),
+            _ if wide => room_i - rng.below(4).min(room_i),
+            _ => rng.range(0, 70).min(room_i),
+        };
+    } else if wide {
+        v0 = mmax - used - rng.below(3).min(mmax - used);
+    }
+    let defined = if bin { ni + nl + na } else { v0 + used };
+    let m = if wide { mmax - rng.below(2).min(mmax - defined) } else {
+        match rng.below(3) { 0 => defined, _ => defined + rng.below(5).min(mmax - defined) }
+    };
+    let maxlit: u128 = 2 * m as u128 + 1;
+    let fixed_lit = |rng: &mut Rng| -> u64 {
+        let c: [u128; 6] = [0, 1, maxlit, maxlit - 1, 2, 3];
+        (*rng.pick(&c)).min(maxlit) as u64
+    };
+    let mut canonical = true;
+
+    let mut d = Doc::new();
+    let need_sym = size[&Dim::Symbols] > 0 || size[&Dim::Name] > 0;
+    let no = if need_sym && ni + nl + no + nb + nc + nj + nf == 0 { 1 } else { no };
+    let h = [m, ni, nl, no, na, nb, nc, nj, nf];
+    let mut need = 9;
+    while need > 5 && h[need - 1] == 0 { need -= 1; }
+    let fields = if rng.chance(1, 5) { canonical = need == 9; 9 } else { need };
+    d.text(if bin { b"aig" } else { b"aag" });
+    for f in h.iter().take(fields) { d.text(format!(" {}", f).as_bytes()); }
+    d.text(b"\n");
+    // inputs
+    if !bin {
+        d.nums(ni as usize, (v0 + 1).wrapping_mul(2), 2, b"", b"\n");
+    }
+    // latches
+    {
+        let next = fixed_lit(rng);
+        let first_state = if bin { (ni + 1).wrapping_mul(2) } else { (v0 + ni + 1).wrapping_mul(2) };
+        let init = if plan.lean { rng.below(2) } else { rng.below(4) };
+        if bin {
+            match init {
+                0 => d.rep(nl as usize, format!("{}\n", next).as_bytes()),
+                1 => d.rep(nl as usize, format!("{} 1\n", next).as_bytes()),
+                2 => { if nl > 0 { canonical = false; } d.rep(nl as usize, format!("{} 0\n", next).as_bytes()) }
+                // uninitialised: the latch's own literal
+                _ => d.nums(nl as usize, first_state, 2, format!("{} ", next).as_bytes(), b"\n"),
+            }
+        } else {
+            match init {
+                0 | 3 => d.nums(nl as usize, first_state, 2, b"", format!(" {}\n", next).as_bytes()),
+                1 => d.nums(nl as usize, first_state, 2, b"", format!(" {} 1\n", next).as_bytes()),
+                _ => { if nl > 0 { canonical = false; } d.nums(nl as usize, first_state, 2, b"", format!(" {} 0\n", next).as_bytes()) }
+            }
+        }
+    }
+    // outputs, bad, constraints, justice literals, fairness: one literal per line
+    let lit_section = |d: &mut Doc, rng: &mut Rng, count: u64| {
+        if count > 0 && !plan.lean && rng.chance(1, 2) && (count as u128 - 1) <= maxlit {
+            // increasing literals, ending at the largest one half of the time
+            let start = if wide || rng.chance(1, 2) { (maxlit - (count as u128 - 1)) as u64 } else { 0 };
+            d.nums(count as usize, start, 1, b"", b"\n");
+        } else {
+            let l = if wide { (maxlit - rng.below(2) as u128) as u64 } else { fixed_lit(rng) };
+            d.rep(count as usize, format!("{}\n", l).as_bytes());
+        }
+    };
+    lit_section(&mut d, rng, no);
+    lit_section(&mut d, rng, nb);
+    lit_section(&mut d, rng, nc);
+    // justice: sizes, then literals
+    let mut jtotal: u64 = 0;
+    if nj > 0 {
+        if js > 0 {
+            let special_first = rng.chance(1, 2);
+            if special_first { d.text(format!("{}\n", js).as_bytes()); }
+            d.rep(nj as usize - 1, format!("{}\n", jc).as_bytes());
+            if !special_first { d.text(format!("{}\n", js).as_bytes()); }
+            jtotal = js + (nj - 1) * jc;
+        } else {
+            d.rep(nj as usize, format!("{}\n", jc).as_bytes());
+            jtotal = nj * jc;
+        }
+    }
+    lit_section(&mut d, rng, jtotal);
+    lit_section(&mut d, rng, nf);
+    // and gates
+    let mut block: Option<(usize, usize, usize)> = None;
+    let block_line = d.bytes.iter().filter(|b| **b == b'\n').count() + 1;
+    if bin {
+        let lhs0 = (ni + nl + 1).wrapping_mul(2); // only used when there are gates
+        // constant deltas: valid for the first gate, hence for all
+        let pick_delta = |rng: &mut Rng, max: u64| -> u64 {
+            let v = match rng.below(8) {
+                0 => 0, 1 => 1, 2 | 3 => 2, 4 => 10, 5 if wide => max,
+                _ if wide => { let j = rng.range(1, 9) as u32; (1u64 << (7 * j).min(63)).wrapping_add(rng.range(0, 2)).wrapping_sub(1) }
+                _ => rng.below(128),
+            };
+            v.min(max)
+        };
+        let d0 = pick_delta(rng, lhs0);
+        let d1 = pick_delta(rng, lhs0 - d0);
+        let pad = |rng: &mut Rng, v: u64| -> Vec<u8> {
+            let enc = varint(v as u128, 0);
+            if wide && rng.chance(1, 4) { varint(v as u128, rng.range(enc.len() as u64, 10) as usize) } else { enc }
+        };
+        let (e0, e1) = (pad(rng, d0), pad(rng, d1));
+        if na > 0 && (e0 != varint(d0 as u128, 0) || e1 != varint(d1 as u128, 0)) { canonical = false; }
+        let gate = [e0, e1].concat();
+        let b0 = d.bytes.len();
+        d.rep(na as usize, &gate);
+        block = Some((b0, d.bytes.len(), gate.len()));
+    } else {
+        let (a, b) = if wide { ((maxlit - 1) as u64, maxlit as u64) } else { (fixed_lit(rng), fixed_lit(rng)) };
+        d.nums(na as usize, (v0 + ni + nl + 1).wrapping_mul(2), 2, b"", format!(" {} {}\n", a, b).as_bytes());
+    }
+    let sym_start = d.bytes.len();
+    // symbols
+    let kinds: Vec<(char, u64)> = [('i', ni), ('l', nl), ('o', no), ('b', nb), ('c', nc), ('j', nj), ('f', nf)]
+        .into_iter().filter(|(_, n)| *n > 0).collect();
+    let ns = if plan.late { size[&Dim::Symbols].max(3) } else { size[&Dim::Symbols] };
+    let name_len = size[&Dim::Name] as usize;
+    let long_name = |d: &mut Doc, rng: &mut Rng| {
+        if name_len > 0 && !kinds.is_empty() {
+            let (k, n) = *rng.pick(&kinds);
+            d.text(format!("{}{} ", k, if rng.chance(1, 2) { n - 1 } else { 0 }).as_bytes());
+            let pat = rng.pick(NAME_PATS).as_bytes();
+            d.rep(name_len.div_ceil(pat.len()), pat);
+            d.text(b"\n");
+        }
+    };
+    let name_first = rng.chance(1, 2) || plan.late;
+    if name_first { long_name(&mut d, rng); }
+    let name_end = d.bytes.len();
+    let mut nsyms = 0;
+    if ns > 0 && !kinds.is_empty() {
+        let (k, n) = *rng.pick(&kinds);
+        let nm = *rng.pick(SCALE_NAMES);
+        if n >= ns && rng.chance(2, 3) {
+            d.nums(ns as usize, 0, 1, &[k as u8], format!(" {}\n", nm).as_bytes());
+        } else {
+            d.rep(ns as usize, format!("{}{} {}\n", k, n - 1, nm).as_bytes());
+        }
+        nsyms = ns;
+    }
+    if !name_first { long_name(&mut d, rng); }
+    let tail_start = d.bytes.len();
+    // comment
+    let clen = size[&Dim::Comment] as usize;
+    if clen > 0 || rng.chance(1, 4) {
+        d.text(b"c\n");
+        let pat = rng.pick(COMMENT_PATS).as_bytes();
+        d.rep(clen.div_ceil(pat.len()), pat);
+        if rng.chance(1, 2) { d.text(b"tail"); }
+        d.text(b"\n");
+    }
+    let items = (ni * (!bin as u64) + nl + no + nb + nc + nj + jtotal + nf + na + nsyms) as usize;
+    // measured on the Lean model (whole quick run, an otherwise busy machine): ~1 us per byte of
+    // numerals / deltas, ~1 us per item, ~0.3 us per byte of a name or comment
+    let cheap_bytes = name_len + (d.bytes.len() - tail_start);
+    let cost = (d.bytes.len() - cheap_bytes.min(d.bytes.len())) + items + cheap_bytes / 3;
+    let kind = kinds.first().copied();
+    Built { d, cost, canonical, block, block_line, sym_start, name_end, tail_start, kind, nl, na, nj, js }
+}
 
 pub fn gen_scale(rng: &mut Rng, opt: &str, thorough: bool) -> String {
     let mut guard = SCALE.lock().unwrap();
@@ -717,18 +951,34 @@ pub fn gen_scale(rng: &mut Rng, opt: &str, thorough: bool) -> String {
     // ---- tail event and mode
     let tails: &[&str] = match opt {
         "scale:valid" => &["valid"],
-        "scale:err" => &["cut", "corrupt", "corrupt"],
+        "scale:err" => &["corrupt", "cut", "corrupt"],
         "scale:fault" => &["fault"],
         "scale:ls" => &["ls"],
         _ => &["valid", "valid", "valid", "ls", "ls", "corrupt", "corrupt", "cut", "fault", "fault"],
     };
-    let (pbin, pdim) = ITEM_DIMS[(index * 7 + index / ITEM_DIMS.len()) % ITEM_DIMS.len()];
-    let bin = pbin;
-    let avg: usize = if thorough { 350_000 } else { 200_000 };
-    let allowance = avg * (index + 6);
-    let room = allowance.saturating_sub(st.spent);
-    // a big slot: the primary dimension gets a size beyond 2^17
-    let big_slot = room >= (1 << 20) + 64 || (room >= (1 << 18) + 64 && rng.chance(1, 2));
+    // Budget, in estimated microseconds of model time: `avg` per case.  An ordinary case uses at
+    // most half of it; the rest accumulates in a pool (which starts with ten cases' worth: room for
+    // one document with more than 2^20 items right away).  The (format, section) pairs take turns
+    // at the pool: as soon as it covers the next size beyond 2^17 that the pair at the front has not
+    // had yet (2^20 + 1 first; capped per case at `cap`), the case becomes a "big slot" for it.
+    let avg: usize = if thorough { 1_000_000 } else { 400_000 };
+    let cap: usize = if thorough { 32_000_000 } else { 5_000_000 };
+    let room = (avg * (index + 10)).saturating_sub(st.spent);
+    let (bbin, bdim) = ITEM_DIMS[st.big_slots % ITEM_DIMS.len()];
+    // rough cost per item of a section (bytes per line + 1)
+    let per_item = |bin: bool, d: Dim| -> usize {
+        match (bin, d) {
+            (false, Dim::Inputs) => 9, (false, Dim::Latches) => 12, (true, Dim::Latches) => 5,
+            (false, Dim::Gates) => 13, (true, Dim::Gates) => 3, (_, Dim::Symbols) => 7, (_, Dim::JusticeCount) => 6,
+            _ => 3,
+        }
+    };
+    let big_size: Option<usize> = st.big.iter().copied()
+        .filter(|x| !st.seen.contains(&(bbin, bdim, *x)) && per_item(bbin, bdim) * x <= cap)
+        .next()
+        .or_else(|| st.big.iter().copied().find(|x| per_item(bbin, bdim) * x <= cap));
+    let big_slot = match big_size { Some(x) => room >= per_item(bbin, bdim) * x * 11 / 10, None => false };
+    let (bin, pdim) = if big_slot { (bbin, bdim) } else { ITEM_DIMS[(index * 7 + index / ITEM_DIMS.len()) % ITEM_DIMS.len()] };
     // big slots walk through the tail events and modes so that few of them cover all
     let tail: &str = if big_slot { tails[(st.big_slots * 3) % tails.len()] } else { *rng.pick(tails) };
     let mut mode: &str = if tail == "ls" { "stream" } else if big_slot {
@@ -737,268 +987,85 @@ pub fn gen_scale(rng: &mut Rng, opt: &str, thorough: bool) -> String {
         match rng.below(10) { 0..=2 => "parse", 3 | 4 => "skip", _ => "stream" }
     };
     if big_slot { st.big_slots += 1; }
+    let target = if big_slot { room.max(avg) } else { avg / 2 };
 
-    // ---- literal type
+    // ---- literal type (a big slot for a section that defines variables needs a type with room)
+    let is_var = |d: Dim| matches!(d, Dim::Inputs | Dim::Latches | Dim::Gates);
     let (ty, maxcode) = match rng.below(10) {
+        0 | 1 if big_slot && is_var(pdim) => TYPES[2],
         0 => TYPES[0], 1 => TYPES[1], 2..=4 => TYPES[2], 5..=7 => TYPES[3], _ => TYPES[4],
     };
     let mmax = (maxcode - 1) / 2;
-    let small_ty = mmax < (1 << 22);
 
     // ---- sizes of the dimensions
-    let mut size: std::collections::HashMap<Dim, u64> = std::collections::HashMap::new();
-    let dims = [Dim::Inputs, Dim::Latches, Dim::Outputs, Dim::Bad, Dim::Constraints, Dim::JusticeCount,
-        Dim::JusticeSize, Dim::Fairness, Dim::Gates, Dim::Symbols, Dim::Name, Dim::Comment];
-    for d in dims { size.insert(d, small(rng)); }
-    size.insert(Dim::JusticeSize, 0);
-    size.insert(Dim::Name, 0);
-    size.insert(Dim::Comment, 0);
-    // variables the literal type still has room for (inputs, latches, and gates share them)
-    let mut vars_left: u64 = mmax;
-    let is_var = |d: Dim| matches!(d, Dim::Inputs | Dim::Latches | Dim::Gates);
     let hi = (1usize << 21) + 64;
-    let mut items: usize = 0;
-    // primary first
+    let late = tail != "valid" && rng.chance(1, if tail == "ls" { 2 } else { 3 });
+    let mut plan = Plan { bin, maxcode, size: Default::default(), wide: !big_slot && rng.chance(1, 2), primary: pdim, late, lean: big_slot };
+    for d in ALL_DIMS { plan.size.insert(d, small(rng)); }
+    for d in [Dim::JusticeSize, Dim::Name, Dim::Comment] { plan.size.insert(d, 0); }
+    let var_cap = |d: Dim| if is_var(d) { (mmax.min(hi as u64)) as usize } else { hi };
+    let mut scaled: Vec<Dim> = vec![];
     {
-        let cap = if is_var(pdim) { (vars_left.min(hi as u64)) as usize } else { hi };
-        let s = if small_ty && is_var(pdim) {
-            // the type limit is the scale: fill the variable range exactly (or all but a few)
-            Some((mmax - rng.below(3).min(mmax)) as usize)
-        } else if big_slot {
-            next_size(st, rng, bin, pdim, true, cap.min(room)).or_else(|| next_size(st, rng, bin, pdim, false, cap))
-        } else {
-            next_size(st, rng, bin, pdim, false, cap)
+        let s = if big_slot { big_size } else {
+            next_size(st, rng, bin, pdim, false, var_cap(pdim))
         };
-        if let Some(s) = s {
-            size.insert(pdim, s as u64);
-            items += s;
-            if is_var(pdim) { vars_left -= s as u64; }
-        }
+        // small literal types: the type limit is the scale
+        let s = s.or(if is_var(pdim) { Some((mmax - rng.below(3)) as usize) } else { None });
+        if let Some(s) = s { plan.size.insert(pdim, s as u64); }
     }
-    // secondary dimensions: a cheap scale size while the per-case budget lasts
-    let mut order: Vec<Dim> = dims.iter().copied().filter(|d| *d != pdim).collect();
+    let mut order: Vec<Dim> = ALL_DIMS.iter().copied().filter(|d| *d != pdim && !(bin && *d == Dim::Inputs)).collect();
     for i in (1..order.len()).rev() {
         let j = rng.below(i as u64 + 1) as usize;
         order.swap(i, j);
     }
-    let case_budget = avg / 2;
     for d in order {
-        match d {
-            Dim::Name | Dim::Comment => {
-                // bytes, not items: any size
-                if rng.chance(1, 2) {
-                    let bigone = rng.chance(1, 3);
-                    if let Some(s) = next_size(st, rng, bin, d, bigone, hi) { size.insert(d, s as u64); }
-                }
-            }
-            _ => {
-                if bin && d == Dim::Inputs { continue; } // only a number in the header: set below
-                if !rng.chance(1, 2) { continue; }
-                let left = case_budget.saturating_sub(items.min(case_budget));
-                let cap = if is_var(d) { (vars_left.saturating_sub(8).min(left as u64)) as usize } else { left };
-                if cap < 1024 { continue; }
-                if let Some(s) = next_size(st, rng, bin, d, false, cap) {
-                    let old = size[&d];
-                    if is_var(d) { vars_left -= s as u64; }
-                    size.insert(d, s as u64);
-                    items += s;
-                    let _ = old;
-                }
-            }
+        if !rng.chance(1, 2) { continue; }
+        // a big slot spends its budget on the primary dimension
+        if big_slot && !matches!(d, Dim::Name | Dim::Comment) { continue; }
+        let bigone = matches!(d, Dim::Name | Dim::Comment) && rng.chance(1, 3);
+        if let Some(s) = next_size(st, rng, bin, d, bigone, var_cap(d)) {
+            plan.size.insert(d, s as u64);
+            scaled.push(d);
         }
     }
-    let js = size[&Dim::JusticeSize];
-    if js > 0 && size[&Dim::JusticeCount] == 0 { size.insert(Dim::JusticeCount, 1); }
-    // the other justice properties: 0, 1 or 2 literals each (fewer when there are many)
-    let nj = size[&Dim::JusticeCount];
-    let jc: u64 = if nj > 4096 { rng.below(2) } else { rng.below(3) };
-    // the whole-file model distributes justice literals in quadratic time: keep `parse` for the
-    // small ones (the harness compares parse() with the independent reading for every valid case)
+    if late {
+        // the long name: a size beyond 2^17 this dimension has not had yet
+        if let Some(s) = next_size(st, rng, bin, Dim::Name, true, hi) { plan.size.insert(Dim::Name, s as u64); }
+        scaled.retain(|d| *d != Dim::Name);
+    }
+    // render; while the estimated cost exceeds the target: narrow numerals, then drop secondary
+    // scale sizes, then take the primary dimension down
+    let rng0 = rng.fork();
+    let mut built = build_scale(&plan, &mut rng0.clone(), &st.all);
+    let mut guard_n = 0;
+    while built.cost > target && guard_n < 40 {
+        guard_n += 1;
+        if plan.wide && built.cost > 2 * target {
+            plan.wide = false;
+        } else if let Some(d) = scaled.pop() {
+            plan.size.insert(d, small(rng));
+        } else if plan.wide {
+            plan.wide = false;
+        } else {
+            let cur = plan.size[&pdim] as usize;
+            let lower = st.big.iter().chain(st.cheap.iter()).copied().filter(|x| *x < cur && !st.seen.contains(&(bin, pdim, *x))).max();
+            plan.size.insert(pdim, lower.unwrap_or(cur / 2) as u64);
+        }
+        built = build_scale(&plan, &mut rng0.clone(), &st.all);
+    }
+    for d in ALL_DIMS {
+        let s = plan.size[&d] as usize;
+        if s >= 1024 { st.seen.insert((bin, d, s)); }
+    }
+    let Built { mut d, cost, canonical, block, block_line, sym_start, name_end, tail_start, kind, nl, na, nj, js } = built;
+    st.spent += cost;
+    if std::env::var("VH_SCALE_DEBUG").is_ok() {
+        eprintln!("scale case {}: primary {:?} bin={} big_slot={} tail={} cost={} spent={} bytes={}", index, pdim, bin, big_slot, tail, cost, st.spent, d.bytes.len());
+    }
+    // the whole-file model distributes justice literals in quadratic time: `parse` only for small
+    // ones (the harness compares parse() with the independent reading for every valid case)
     if mode == "parse" && (nj > 4096 || js > 4096) { mode = "stream"; }
-
-    let (nl, no, nb, nc, nf, na) = (size[&Dim::Latches], size[&Dim::Outputs], size[&Dim::Bad], size[&Dim::Constraints], size[&Dim::Fairness], size[&Dim::Gates]);
-    let mut ni = size[&Dim::Inputs];
-    // small literal types: the sections that define variables must fit
-    let fit = |ni: u64, nl: u64, na: u64| ni as u128 + nl as u128 + na as u128 <= mmax as u128;
-    let (mut nl, mut na) = (nl, na);
-    while !fit(ni, nl, na) {
-        // shrink the non-primary ones first
-        if pdim != Dim::Gates && na > 0 { na /= 2; } else if pdim != Dim::Latches && nl > 0 { nl /= 2; } else if ni > 0 { ni /= 2; } else if na > 0 { na /= 2; } else { nl /= 2; }
-    }
-    // wide: literals at the top of the type's range, so numerals are long and lines are wide
-    let wide = rng.chance(1, 2);
-    let used = ni + nl + na;
-    let mut v0: u64 = 0; // aag: variables v0+1.. are the defined ones
-    if bin {
-        // the input count is free: small, a scale size, or close to the type limit
-        let room_i = mmax - nl - na;
-        ni = match rng.below(4) {
-            0 => rng.below(3).min(room_i),
-            1 => (*rng.pick(&st.all) as u64).min(room_i),
-            _ if wide => room_i - rng.below(4).min(room_i),
-            _ => rng.range(0, 70).min(room_i),
-        };
-    } else if wide {
-        v0 = mmax - used - rng.below(3).min(mmax - used);
-    }
-    let defined = if bin { ni + nl + na } else { v0 + used };
-    let m = match rng.below(3) { 0 => defined, 1 => mmax, _ => defined + rng.below(5).min(mmax - defined) };
-    let maxlit: u128 = 2 * m as u128 + 1;
-    let fixed_lit = |rng: &mut Rng| -> u64 {
-        let c: [u128; 6] = [0, 1, maxlit, maxlit - 1, 2, 3];
-        (*rng.pick(&c)).min(maxlit) as u64
-    };
-    let mut canonical = true;
-
-    // ---- the document
-    let mut d = Doc::new();
-    let need_sym = size[&Dim::Symbols] > 0 || size[&Dim::Name] > 0;
-    let no = if need_sym && ni + nl + no + nb + nc + nj + nf == 0 { 1 } else { no };
-    let h = [m, ni, nl, no, na, nb, nc, nj, nf];
-    let mut need = 9;
-    while need > 5 && h[need - 1] == 0 { need -= 1; }
-    let fields = if rng.chance(1, 5) { canonical = need == 9; 9 } else { need };
-    d.text(if bin { b"aig" } else { b"aag" });
-    for f in h.iter().take(fields) { d.text(format!(" {}", f).as_bytes()); }
-    d.text(b"\n");
-    // offsets at which a line-structured token starts (for `corrupt`), one per section
-    let mut line_starts: Vec<(usize, usize, usize)> = vec![]; // (start offset of section, number of lines, 0)
-    let sec_begin = |d: &Doc| d.bytes.len();
-    // inputs
-    if !bin {
-        let b0 = sec_begin(&d);
-        d.nums(ni as usize, (v0 + 1).wrapping_mul(2), 2, b"", b"\n");
-        line_starts.push((b0, ni as usize, 0));
-    }
-    // latches
-    {
-        let b0 = sec_begin(&d);
-        let next = fixed_lit(rng);
-        let first_state = if bin { (ni + 1).wrapping_mul(2) } else { (v0 + ni + 1).wrapping_mul(2) };
-        let init = rng.below(4);
-        if bin {
-            match init {
-                0 => d.rep(nl as usize, format!("{}\n", next).as_bytes()),
-                1 => d.rep(nl as usize, format!("{} 1\n", next).as_bytes()),
-                2 => { if nl > 0 { canonical = false; } d.rep(nl as usize, format!("{} 0\n", next).as_bytes()) }
-                _ => d.nums(nl as usize, first_state, 2, format!("{} ", next).as_bytes(), b"\n"),
-            }
-        } else {
-            match init {
-                0 | 3 => d.nums(nl as usize, first_state, 2, b"", format!(" {}\n", next).as_bytes()),
-                1 => d.nums(nl as usize, first_state, 2, b"", format!(" {} 1\n", next).as_bytes()),
-                _ => { if nl > 0 { canonical = false; } d.nums(nl as usize, first_state, 2, b"", format!(" {} 0\n", next).as_bytes()) }
-            }
-        }
-        line_starts.push((b0, nl as usize, 0));
-    }
-    // outputs, bad, constraints
-    let lit_section = |d: &mut Doc, rng: &mut Rng, count: u64, line_starts: &mut Vec<(usize, usize, usize)>| {
-        let b0 = d.bytes.len();
-        if count > 0 && rng.chance(1, 2) && (count as u128 - 1) <= maxlit {
-            // increasing literals, ending at the largest one half of the time
-            let start = if rng.chance(1, 2) { (maxlit - (count as u128 - 1)) as u64 } else { 0 };
-            d.nums(count as usize, start, 1, b"", b"\n");
-        } else {
-            let l = fixed_lit(rng);
-            d.rep(count as usize, format!("{}\n", l).as_bytes());
-        }
-        line_starts.push((b0, count as usize, 0));
-    };
-    lit_section(&mut d, rng, no, &mut line_starts);
-    lit_section(&mut d, rng, nb, &mut line_starts);
-    lit_section(&mut d, rng, nc, &mut line_starts);
-    // justice: sizes, then literals
-    {
-        let b0 = sec_begin(&d);
-        let special_first = rng.chance(1, 2);
-        let mut total: u64 = 0;
-        if nj > 0 {
-            if js > 0 {
-                if special_first { d.text(format!("{}\n", js).as_bytes()); }
-                d.rep(nj as usize - 1, format!("{}\n", jc).as_bytes());
-                if !special_first { d.text(format!("{}\n", js).as_bytes()); }
-                total = js + (nj - 1) * jc;
-            } else {
-                d.rep(nj as usize, format!("{}\n", jc).as_bytes());
-                total = nj * jc;
-            }
-        }
-        line_starts.push((b0, nj as usize, 0));
-        lit_section(&mut d, rng, total, &mut line_starts);
-        items += total as usize;
-    }
-    lit_section(&mut d, rng, nf, &mut line_starts);
-    // and gates
-    let mut block: Option<(usize, usize, usize)> = None; // (start, end, bytes per gate)
-    let block_line = d.bytes.iter().filter(|b| **b == b'\n').count() + 1;
-    if bin {
-        let lhs0 = (ni + nl + 1).wrapping_mul(2); // only used when there are gates
-        // constant deltas: valid for the first gate, hence for all
-        let pick_delta = |rng: &mut Rng, max: u64| -> u64 {
-            let v = match rng.below(8) {
-                0 => 0, 1 => 1, 2 | 3 => 2, 4 => 10, 5 => max,
-                _ => { let j = rng.range(1, 9) as u32; (1u64 << (7 * j).min(63)).wrapping_add(rng.range(0, 2)).wrapping_sub(1) }
-            };
-            v.min(max)
-        };
-        let d0 = pick_delta(rng, lhs0);
-        let d1 = pick_delta(rng, lhs0 - d0);
-        let pad = |rng: &mut Rng, v: u64| -> Vec<u8> {
-            let enc = varint(v as u128, 0);
-            if rng.chance(1, 5) { varint(v as u128, rng.range(enc.len() as u64, 10) as usize) } else { enc }
-        };
-        let (e0, e1) = (pad(rng, d0), pad(rng, d1));
-        if na > 0 && (e0 != varint(d0 as u128, 0) || e1 != varint(d1 as u128, 0)) { canonical = false; }
-        let gate = [e0, e1].concat();
-        let b0 = sec_begin(&d);
-        d.rep(na as usize, &gate);
-        block = Some((b0, d.bytes.len(), gate.len()));
-    } else {
-        let b0 = sec_begin(&d);
-        let (a, b) = (fixed_lit(rng), fixed_lit(rng));
-        d.nums(na as usize, (v0 + ni + nl + 1).wrapping_mul(2), 2, b"", format!(" {} {}\n", a, b).as_bytes());
-        line_starts.push((b0, na as usize, 0));
-    }
-    let sym_start = d.bytes.len();
-    // symbols
-    let kinds: Vec<(char, u64)> = [('i', ni), ('l', nl), ('o', no), ('b', nb), ('c', nc), ('j', nj), ('f', nf)]
-        .into_iter().filter(|(_, n)| *n > 0).collect();
-    let ns = size[&Dim::Symbols];
-    let name_len = size[&Dim::Name] as usize;
-    let long_name = |d: &mut Doc, rng: &mut Rng| {
-        if name_len > 0 && !kinds.is_empty() {
-            let (k, n) = *rng.pick(&kinds);
-            d.text(format!("{}{} ", k, if rng.chance(1, 2) { n - 1 } else { 0 }).as_bytes());
-            let pat = rng.pick(NAME_PATS).as_bytes();
-            d.rep(name_len.div_ceil(pat.len()), pat);
-            d.text(b"\n");
-        }
-    };
-    let name_first = rng.chance(1, 2);
-    if name_first { long_name(&mut d, rng); }
-    if ns > 0 && !kinds.is_empty() {
-        let (k, n) = *rng.pick(&kinds);
-        let nm = *rng.pick(SCALE_NAMES);
-        if n >= ns && rng.chance(2, 3) {
-            d.nums(ns as usize, 0, 1, &[k as u8], format!(" {}\n", nm).as_bytes());
-        } else {
-            d.rep(ns as usize, format!("{}{} {}\n", k, n - 1, nm).as_bytes());
-        }
-    }
-    if !name_first { long_name(&mut d, rng); }
-    // comment
-    let clen = size[&Dim::Comment] as usize;
-    if clen > 0 || rng.chance(1, 4) {
-        d.text(b"c\n");
-        let pat = rng.pick(COMMENT_PATS).as_bytes();
-        d.rep(clen.div_ceil(pat.len()), pat);
-        if rng.chance(1, 2) { d.text(b"tail"); }
-        d.text(b"\n");
-    }
     let len = d.bytes.len();
-    items += (if bin { 0 } else { ni } + nl + no + nb + nc + nj + nf + na + ns) as usize - if size.contains_key(&pdim) { 0 } else { 0 };
-    st.spent += items / if tail == "ls" { 2 } else { 1 };
 
     // ---- the tail event
     let mut case = Case {
@@ -1008,6 +1075,9 @@ pub fn gen_scale(rng: &mut Rng, opt: &str, thorough: bool) -> String {
     };
     // a byte position: mostly near the end, sometimes anywhere, sometimes a scale size
     let position = |rng: &mut Rng, st: &ScaleState| -> usize {
+        if late && name_end < len && rng.chance(3, 4) {
+            return name_end + rng.below((len - name_end) as u64 + 1) as usize;
+        }
         match rng.below(4) {
             0 => rng.below(len as u64 + 1) as usize,
             1 => {
@@ -1039,41 +1109,47 @@ pub fn gen_scale(rng: &mut Rng, opt: &str, thorough: bool) -> String {
             if rng.chance(1, 5) { case.cut = Some(position(rng, st)); }
         }
         _ => {
-            // corrupt: a bad token (or a long run of one byte class) where a token starts
-            let target = position(rng, st).min(sym_start.saturating_sub(1));
-            // the header, a line of a text section, or a gate of the binary block
-            let mut cut = 0usize;
-            let mut tline = 1usize;
-            let mut tcol = 1usize;
-            let mut in_block = false;
-            if let Some((bs, be, gl)) = block {
-                if target >= bs && target < be {
-                    cut = bs + (target - bs) / gl * gl;
-                    tline = block_line;
-                    tcol = cut - bs + 1;
-                    in_block = true;
+            // corrupt: a bad token (or a long run of one byte class) where a token starts: a field
+            // of the header, a line of a text section, or a gate of the binary block
+            let late_sym = late && name_end > sym_start && name_end < tail_start && kind.is_some();
+            let target = if late_sym { name_end + rng.below((tail_start - name_end) as u64) as usize } else { position(rng, st).min(sym_start.saturating_sub(1)) };
+            let (cut, tline, tcol, in_block) = match block {
+                _ if late_sym => {
+                    // a line of the symbol table behind the long name (lines of the binary block do
+                    // not count: `t` names the line as the harness's C08 oracle counts them)
+                    let ls = d.bytes[..target].iter().rposition(|b| *b == b'\n').map(|p| p + 1).unwrap_or(0);
+                    let lines = crate::eng_aiger::c08_lines(if bin { "aig" } else { "aag" }, &d.bytes[..ls]);
+                    (ls, lines.len() + 1, 1, false)
                 }
-            }
-            if !in_block {
-                // start of the line that contains `target` (the header line: one of its fields)
-                let ls = d.bytes[..target.min(len)].iter().rposition(|b| *b == b'\n').map(|p| p + 1).unwrap_or(0);
-                if ls == 0 {
-                    let hl = d.bytes.iter().position(|b| *b == b'\n').unwrap();
-                    let sp: Vec<usize> = (0..hl).filter(|i| d.bytes[*i] == b' ').collect();
-                    cut = *rng.pick(&sp) + 1;
-                    tcol = cut + 1;
-                } else {
-                    cut = ls;
-                    tline = d.bytes[..ls].iter().filter(|b| **b == b'\n').count() + 1;
-                    if let Some((bs, be, _)) = block {
-                        // lines after the block do not occur here (target < sym_start); a line start
-                        // equal to the block start with an empty block is an ordinary line
-                        let _ = (bs, be);
+                Some((bs, be, gl)) if target >= bs && target < be => {
+                    let cut = bs + (target - bs) / gl * gl;
+                    (cut, block_line, cut - bs + 1, true)
+                }
+                _ => {
+                    let ls = d.bytes[..target.min(len)].iter().rposition(|b| *b == b'\n').map(|p| p + 1).unwrap_or(0);
+                    if ls == 0 {
+                        let hl = d.bytes.iter().position(|b| *b == b'\n').unwrap();
+                        let sp: Vec<usize> = (0..hl).filter(|i| d.bytes[*i] == b' ').collect();
+                        let cut = *rng.pick(&sp) + 1;
+                        (cut, 1, cut + 1, false)
+                    } else {
+                        (ls, d.bytes[..ls].iter().filter(|b| **b == b'\n').count() + 1, 1, false)
                     }
                 }
-            }
+            };
             let run = |rng: &mut Rng, st: &ScaleState| -> usize { *rng.pick(&st.all) };
-            let (post, tn): (String, usize) = if in_block {
+            let (post, tn): (String, usize) = if late_sym {
+                let (k, n) = kind.unwrap();
+                let bad: Vec<u8> = match rng.below(6) {
+                    0 => b"q0 x\n".to_vec(),
+                    1 => format!("{}{} x\n", k, n).into_bytes(),
+                    2 => format!("{}\n", k).into_bytes(),
+                    3 => [format!("{}0", k).as_bytes(), b"\xffx\n"].concat(),
+                    4 => [format!("{}0 ", k).as_bytes(), b"ok\xe2\x82\n"].concat(),
+                    _ => b"\n".to_vec(),
+                };
+                (hex(&bad), bad.len() - 1)
+            } else if in_block {
                 match rng.below(4) {
                     0 => { let n = run(rng, st); (format!("r{}.80", n), n) }
                     1 => { let n = run(rng, st); (format!("r{}.ff", n), n) }
